@@ -145,6 +145,9 @@ func runThorough(p *Property, rep *Report) (map[string]interface{}, int, []strin
 	for _, m := range mutantsFor(p.ID) {
 		jobs = append(jobs, job{"mutant:" + m.ID, []string{"-property", p.ID, "-mutant", m.ID, "-noevidence", "-repo", *flagRepo, "-verif", *flagVerif}})
 	}
+	for _, d := range seededFor(p.ID) {
+		jobs = append(jobs, job{"mutant:seeded/" + filepath.Base(d), []string{"-property", p.ID, "-seeded", d, "-noevidence", "-repo", *flagRepo, "-verif", *flagVerif}})
+	}
 	type res struct {
 		name string
 		code int
